@@ -242,6 +242,14 @@ def _roots_of_kw(repo, f, fl, cfg, call, name, pos=None):
     return v, fl.roots(v, cfg.node_of(call))
 
 
+def _returned_first(f: Def, calls: list) -> list:
+    """constructor calls of f, the one whose result is returned first (a scratch object built
+    on the way is not the fused operation)"""
+    ret = [r.value for r in f.own_nodes() if isinstance(r, ast.Return) and r.value is not None]
+    hit = [c for c in calls if any(c is v for v in ret)]
+    return hit + [c for c in calls if c not in hit]
+
+
 @rule("FUSE-PROV-1", props=["C02", "C05", "C13", "C11"], floor=10, default=["C02", "C05", "C13"])
 def fuse_prov(ctx: Ctx) -> None:
     """provenance of every value-relevant field of a fused operation: task set, target and
@@ -269,7 +277,7 @@ def fuse_prov(ctx: Ctx) -> None:
     # fuse(op1, op2): op2 is the successor
     f = repo.get(f"{A.PBW}.fuse")
     pred, succ = f.params[0], f.params[1]
-    po = repo.calls_to(f, PO)
+    po = _returned_first(f, repo.calls_to(f, PO))
     cp = repo.calls_to(f, CP)
     bs = repo.calls_to(f, BS)
     ctx.need(po and cp and bs, "fuse(): constructor calls not found")
@@ -326,7 +334,7 @@ def fuse_prov(ctx: Ctx) -> None:
     # fuse_multiple(op, *preds)
     f = repo.get(f"{A.PBW}.fuse_multiple")
     succ, preds = f.params[0], f.vararg
-    po = repo.calls_to(f, PO)
+    po = _returned_first(f, repo.calls_to(f, PO))
     cp = repo.calls_to(f, CP)
     ctx.need(po and cp and preds, "fuse_multiple(): constructor calls not found")
     field_from(f, succ, po[0], "target_array", (".target_array",))
